@@ -128,3 +128,21 @@ def any_nonzero(b):
 
 def all_nonzero(b):
     return all(b)
+
+
+def starts_b(b):
+    return b.startswith(b"HSM"), b.endswith(b"9")
+
+
+def divmod_const(a):
+    if a < 0:
+        return (0, 0)
+    return divmod(a, 1024)
+
+
+def reversed_bytes(b):
+    return b[::-1]
+
+
+def listcomp_bytes(b):
+    return [c + 1 for c in b]
